@@ -8,5 +8,6 @@ namespace Generated
 theorem c11_facts : C11.FactsOK facts where
   methods := by decide
   defaultHeaderEnums := by decide
+  resetComplete := by decide
 
 end Generated
